@@ -297,7 +297,8 @@ def effects_of(eng: Engine, fn: FuncInfo) -> list[dict]:
                         elif vc.startswith(('set:', 'list:', 'dict:', 'OrderedDict:', 'built:')) or vc.startswith('local:'):
                             kind = 'REPLACE'
                         extra = [('' if pol else 'not ') + unparse(expand_c(fn, e, depth=3, ctx=n)) for e, pol in arm_conds]
-                        out.append({'on': target_of(fn, t.value), 'field': t.attr, 'kind': kind, 'value': vc, 'if': sorted(set(conds(n) + extra)), 'each': loops(n)})
+                        out.append({'on': target_of(fn, t.value), 'field': t.attr, 'kind': kind, 'value': vc, 'if': sorted(set(conds(n) + extra)), 'each': loops(n),
+                                    'value_full': unparse(expand_c(fn, stored_just_before(fn, leaf)))})
                 elif isinstance(t, ast.Subscript) and isinstance(t.value, ast.Attribute):
                     out.append({'on': target_of(fn, t.value.value), 'field': t.value.attr, 'kind': 'ADD', 'value': value_class(fn, t.slice), 'if': conds(n),
                                 'each': loops(n)})
@@ -324,7 +325,31 @@ def effects_of(eng: Engine, fn: FuncInfo) -> list[dict]:
                 if vc.startswith('local:') or '.name' in vc:
                     vc = target_of(fn, v.value) + '.name' if isinstance(v, ast.Attribute) else vc
                 out.append(drop_presence_tests({'on': target_of(fn, r.value), 'field': r.attr, 'kind': kind, 'value': vc, 'if': conds(n), 'each': loops(n)}, n))
+    out = merge_empty_case(out)
     out.sort(key=lambda d: (d['on'], d['field'], d['kind'], d['value']))
+    return out
+
+
+def merge_empty_case(effs: list[dict]) -> list[dict]:
+    """`if not message.xs: r.f = <empty>` next to `if message.xs: r.f = <built from message.xs>` is ONE effect, the unconditional replace: a
+    container built from an empty list is the empty container.  (A fast path for the empty message that still stores and reports.)"""
+    out = list(effs)
+    for a in effs:
+        if a not in out or a['kind'] != 'CLEAR':
+            continue
+        for b in effs:
+            if b is a or b not in out or (b['on'], b['field']) != (a['on'], a['field']) or b['kind'] not in ('REPLACE',) or a['each'] or b['each']:
+                continue
+            src = b['value'].split(':', 1)[-1]
+            if '+' in src or not src.startswith('message.'):
+                continue
+            ca, cb = set(a['if']), set(b['if'])
+            if ca - cb == {f'not {src}'} and cb - ca == {src}:
+                merged = dict(b)
+                merged['if'] = sorted(ca & cb)
+                out.remove(a)
+                out[out.index(b)] = merged
+                break
     return out
 
 
@@ -359,6 +384,27 @@ def event_args(eng: Engine, fn: FuncInfo) -> list[dict]:
             args[k.arg] = f'built:{b}' if b else target_of(fn, k.value)
         d['args'] = args
         out.append(d)
+    # the event of the empty fast path (`if not message.xs: emit(E(.., xs=<empty>))`) and the event of the general path
+    # (`if message.xs: emit(E(.., xs=<built from message.xs>))`) are one event: what is built from an empty list is empty
+    EMPTY = ('OrderedDict()', 'dict()', 'list()', 'set()', '[]', '{}', '()', 'empty')
+    for a in list(out):
+        for b in list(out):
+            if a is b or a not in out or b not in out or a['event'] != b['event'] or set(a['args']) != set(b['args']):
+                continue
+            diff = [k for k in a['args'] if a['args'][k] != b['args'][k]]
+            if len(diff) != 1:
+                continue
+            k = diff[0]
+            va, vb = a['args'][k], b['args'][k]
+            src = vb.split(':', 1)[-1]
+            is_empty_local = va in EMPTY or any(isinstance(n, ast.Assign) and unparse(n.targets[0]) == va and unparse(n.value) in EMPTY for n in walk_local(fn.node)) or \
+                any(isinstance(n, ast.AnnAssign) and unparse(n.target) == va and n.value is not None and unparse(n.value) in EMPTY for n in walk_local(fn.node))
+            ca, cb = set(a['if']), set(b['if'])
+            if is_empty_local and vb.startswith('built:') and src.startswith('message.') and '+' not in src and ca - cb == {f'not {src}'} and cb - ca == {src}:
+                merged = dict(b)
+                merged['if'] = sorted(ca & cb)
+                out.remove(a)
+                out[out.index(b)] = merged
     return out
 
 
